@@ -248,8 +248,8 @@ Section Cache.
     end.
 End Cache.
 
-(* CachedCmap: the supplementary planes are filled from the format-12 subtable; when a format-4 subtable exists the BMP
-   blocks are then emptied and filled from it alone; without one the BMP blocks keep what format 12 put there. *)
+(* CachedCmap: the supplementary planes are filled from the format-12 subtable; the BMP blocks are then emptied and filled from the
+   format-4 subtable alone; without a format-4 subtable there is no cache (and no face), as with DirectCmap. *)
 Record ccache := { cc_smp : cmap; cc_bmp : option cmap }.
 Definition cached_build (t : mem) (bmp smp : option N) : option (option ccache) :=
   m1 <- (match smp with
@@ -260,7 +260,7 @@ Definition cached_build (t : mem) (bmp smp : option N) : option (option ccache) 
   | Some ms => match bmp with
                | Some o => mb <- cache_subtable (next4 t o) (lookup4 t o) 0xFFFF (PositiveMap.empty N) ;;
                            Some (match mb with Some b => Some {| cc_smp := ms; cc_bmp := Some b |} | None => None end)
-               | None => Some (Some {| cc_smp := ms; cc_bmp := None |})
+               | None => Some None                                  (* as DirectCmap: no face without a BMP subtable *)
                end
   end.
 Definition cached (m : ccache) (bmp_only : bool) (c : N) : N :=
